@@ -107,7 +107,7 @@ func (j *verifJunker) junkNode(depth int) Node {
 // names that generated templates use, so that a dirty map shows up in an output
 var verifVarNames = []string{"v0", "v1", "v2", "v3", "loop", "q"}
 var verifBlockNames = []string{"b1", "b2", "b3"}
-var verifMacroNames = []string{"m1", "m2"}
+var verifMacroNames = []string{"m1", "m2", "m5"}
 
 func (j *verifJunker) keyFor(t reflect.Type, i int) reflect.Value {
 	if t.Kind() == reflect.String {
